@@ -30,6 +30,7 @@ package hclwrite
 //@ assigns n.list, n.before, n.after, n.before.after, n.after.before, n.list.first, n.list.last, n.list.members
 //@ ghost old(n.list).members = del(old(n.list.members), n)
 //@ ensures det: detached(n)
+//@ ensures members: old(n.list) != nil ==> old(n.list).members == del(old(n.list.members), n)
 //@ ensures wf: old(n.list) != nil ==> WF(old(n.list))
 //@ ensures content: n.content == old(n.content)
 
@@ -41,12 +42,13 @@ package hclwrite
 //@ ghost ret.pos = old(n.pos)
 //@ ensures new: fresh(ret) && ret != nil && ret.content == c && ret.list == old(n.list) && ret.before == old(n.before) && ret.after == old(n.after)
 //@ ensures det: detached(n)
+//@ ensures members: old(n.list).members == add(del(old(n.list.members), n), ret)
 //@ ensures wf: WF(old(n.list))
 
 // verif:func (*nodes).Clear
 //@ assigns ns.first, ns.last, ns.members
 //@ ghost ns.members = emptyset()
-//@ ensures ns.first == nil && ns.last == nil && WF(ns)
+//@ ensures ns.first == nil && ns.last == nil && ns.members == emptyset() && WF(ns)
 
 // verif:func (*nodes).AppendNode
 //@ requires WF(ns) && n != nil && detached(n)
@@ -54,6 +56,7 @@ package hclwrite
 //@ ghost ns.members = add(old(ns.members), n)
 //@ ghost n.pos = ite(old(ns.last) == nil, 0, old(ns.last.pos) + 1)
 //@ ensures linked: n.list == ns && ns.last == n && n.after == nil && n.before == old(ns.last)
+//@ ensures members: ns.members == add(old(ns.members), n)
 //@ ensures first: (old(ns.first) != nil ==> ns.first == old(ns.first)) && (old(ns.first) == nil ==> ns.first == n)
 //@ ensures wf: WF(ns)
 
@@ -63,5 +66,58 @@ package hclwrite
 //@ ghost ns.members = add(old(ns.members), ret)
 //@ ensures new: fresh(ret) && ret != nil && ret.content == c
 //@ ensures linked: ret.list == ns && ns.last == ret && ret.after == nil && ret.before == old(ns.last)
+//@ ensures members: ns.members == add(old(ns.members), ret)
 //@ ensures first: (old(ns.first) != nil ==> ns.first == old(ns.first)) && (old(ns.first) == nil ==> ns.first == ret)
 //@ ensures wf: WF(ns)
+
+// ---- nodeSet (map[*node]struct{}) ----
+
+// verif:func newNodeSet
+//@ assigns nothing
+//@ ensures fresh(ret) && ret != nil && (forall k ref :: !has(ret, k))
+
+// verif:func (nodeSet).Has
+//@ pure
+//@ ensures ret == has(ns, n)
+
+// verif:func (nodeSet).Add
+//@ requires ns != nil
+//@ assigns mapof(ns)
+//@ ensures has(ns, n) && (forall k ref :: k != n ==> has(ns, k) == old(has(ns, k)))
+
+// verif:func (nodeSet).Remove
+//@ assigns mapof(ns)
+//@ ensures !has(ns, n) && (forall k ref :: k != n ==> has(ns, k) == old(has(ns, k)))
+
+// Assumed (the range-and-delete loop needs a visited-set ghost the engine does not model).
+// verif:func (nodeSet).Clear
+//@ trusted
+//@ assigns mapof(ns)
+//@ ensures forall k ref :: !has(ns, k)
+
+// ---- Body ----
+
+// InvBody(b): the body's item set only contains nodes linked into its child list.
+// verif:pred InvBody(b *Body) = b.children != nil && WF(b.children) && b.items != nil && (forall r ref :: { has(b.items, r) } has(b.items, r) ==> r != nil && allocated(r)) && (forall k *node :: { has(b.items, k) } has(b.items, k) ==> in(k, b.children.members))
+
+// verif:func newInTree
+//@ assigns nothing
+//@ ensures ret.parent == nil && fresh(ret.children) && ret.children != nil && ret.children.first == nil && ret.children.last == nil && ret.children.members == emptyset()
+
+// verif:func newBody
+//@ assigns nothing
+//@ ensures fresh(ret) && ret != nil && InvBody(ret) && (forall k ref :: !has(ret.items, k)) && ret.children.first == nil
+
+// verif:func (*Body).appendItem
+//@ requires InvBody(b)
+//@ assigns b.children.first, b.children.last, b.children.last.after, b.children.members, mapof(b.items)
+//@ ensures new: fresh(ret) && ret != nil && ret.content == c && has(b.items, ret) && in(ret, b.children.members) && ret.list == b.children && b.children.last == ret
+//@ ensures others: forall k ref :: k != ret ==> has(b.items, k) == old(has(b.items, k))
+//@ ensures members: b.children.members == add(old(b.children.members), ret)
+//@ ensures inv: InvBody(b)
+
+// verif:func (*Body).Clear
+//@ requires InvBody(b)
+//@ assigns b.children.first, b.children.last, b.children.members, mapof(b.items)
+//@ ensures empty: (forall k ref :: !has(b.items, k)) && b.children.first == nil
+//@ ensures inv: InvBody(b)
